@@ -1,5 +1,6 @@
 mod construct;
 mod costream;
+mod crash;
 mod driver;
 mod engine_comb;
 mod exec;
@@ -58,6 +59,8 @@ fn main() {
             }
             let t0 = std::time::Instant::now();
             let ename = engine.name();
+            let _ = std::fs::create_dir_all(&replay_dir);
+            crash::install(&format!("{}/crash-{}-{}.bin", replay_dir, id, driver::config_name()));
             let r = driver::run(engine, id, seed, cases, threads, max_len, hang, &replay_dir);
             let wall = t0.elapsed().as_secs_f64();
             let replay = r.failure.as_ref().map(|f| driver::write_replay(&replay_dir, id, ename, f));
@@ -99,6 +102,7 @@ fn main() {
                 eprintln!("unknown property {}", prop);
                 std::process::exit(2);
             };
+            crash::install("");
             let ev = engine.eval(&bytes, true);
             println!("case: {}", ev.show);
             for l in &ev.trace {
